@@ -54,11 +54,28 @@ class MachineryError(Exception):
     pass
 
 
-def load_index(prop):
+def load_index(prop, _depth=0):
     p = os.path.join(VERIF, "obligations", prop, "index.json")
     if not os.path.exists(p):
         raise MachineryError("no obligations/%s/index.json" % prop)
     idx = json.load(open(p))
+    idx.setdefault("jobs", [])
+    # jobs owned by another property that also carry part of this one (e.g. C12/C19 are cross-cutting):
+    # {"job": "C09.memRead", "variant": {...overrides...}, "id": "C12.memRead"}
+    for inc in idx.get("include_jobs", []):
+        if isinstance(inc, str):
+            inc = {"job": inc}
+        oprop = inc["job"].split(".")[0]
+        if not _depth:
+            src = [j for j in load_index(oprop, _depth=1)["jobs"] if j["id"] == inc["job"]]
+            if not src:
+                raise MachineryError("include_jobs: unknown job " + inc["job"])
+            j = dict(src[0])
+            j.update(inc.get("variant", {}))
+            j["id"] = inc.get("id", prop + "." + inc["job"].split(".", 1)[1])
+            j["property"] = prop
+            j["borrowed_from"] = inc["job"]
+            idx["jobs"].append(j)
     for j in idx["jobs"]:
         j.setdefault("property", prop)
         j.setdefault("entry", "harness")
